@@ -19,6 +19,8 @@ func main() {
 		cmdTree(os.Args[2:])
 	case "build":
 		cmdBuild(os.Args[2:])
+	case "ser":
+		cmdSer(os.Args[2:])
 	default:
 		fmt.Fprintln(os.Stderr, "unknown command", os.Args[1])
 		os.Exit(2)
